@@ -174,7 +174,9 @@ def run(prop, tier=None, replay=None):
                   "x = 'a" + "b" * 80 + " &", "x = 1 &", "&", "& &", "x = 1; ; ; y = 2", ";", "x = 1 ;",
                   # Hollerith items (an extension that is on by default): counts with blanks, too long, too short, zero
                   "100 format(1 2Habc, i3)", "100 format(1 2Habcdefghijkl, i3)", "100 format(9Hab)", "100 format(0H, i3)", "100 format(2 Hab, 3Hcde)",
-                  "call s(3Habc, 2 Hab)", "data x /4Habcd/", "x = F2PY_EXPR_TUPLE_7 + _F2PY_STRING_CONSTANT_1_", "real :: x :: y", "integer :: :: a"):
+                  "call s(3Habc, 2 Hab)", "data x /4Habcd/", "x = F2PY_EXPR_TUPLE_7 + _F2PY_STRING_CONSTANT_1_", "real :: x :: y", "integer :: :: a",
+                  # what is left of a labelled / named statement when its text is deleted: a label alone, a label and a comment
+                  "10", "20 ! note", "   30", "10 &", "10;", "10 ; x = 1"):
             rl.append(d)
         for k, line in enumerate(rl):
             for wn, w in (wraps[0], wraps[2]) if tier == "quick" else wraps[:4]:
